@@ -1,7 +1,7 @@
-// Copies /repo/fclones/src/semaphore.rs (the CURRENT source) into OUT_DIR with exactly one line
-// changed: the std::sync import is replaced by the scheduler-instrumented primitives of
-// src/bin/sem.rs.  If that line is gone the build fails, which the check reports as a broken
-// correspondence for C19.
+// Copies /repo/fclones/src/semaphore.rs (the CURRENT source) into OUT_DIR with every `std::sync::`
+// path redirected to the scheduler-instrumented primitives of src/bin/sem.rs (simsync).  If the
+// file stops using std::sync, or uses an item simsync does not provide, the build fails, which
+// the check reports as a broken correspondence for C19.
 use std::{env, fs, path::PathBuf};
 
 fn main() {
@@ -12,15 +12,15 @@ fn main() {
     println!("cargo:rerun-if-changed={src}");
     println!("cargo:rerun-if-changed=build.rs");
     let text = fs::read_to_string(src).expect("read semaphore.rs");
-    let needle = "use std::sync::{Arc, Condvar, Mutex};";
-    assert_eq!(
-        text.matches(needle).count(),
-        1,
-        "semaphore.rs no longer contains exactly one `{needle}`"
-    );
     // drop the unit tests of the original file (they use std threads)
     let cut = text.find("#[cfg(test)]").unwrap_or(text.len());
-    let out = text[..cut].replace(needle, "use crate::simsync::{Arc, Condvar, Mutex};");
+    let body = &text[..cut];
+    // every std::sync item (Mutex, MutexGuard, Condvar, Arc, ...) is taken from the instrumented module
+    assert!(
+        body.contains("std::sync::"),
+        "semaphore.rs no longer uses std::sync: the scheduler instrumentation cannot be attached"
+    );
+    let out = body.replace("std::sync::", "crate::simsync::");
     let dst = PathBuf::from(env::var("OUT_DIR").unwrap()).join("semaphore_sim.rs");
     fs::write(dst, out).unwrap();
 }
